@@ -50,7 +50,7 @@ LATS = [(1, 2), (2, 1), (2, 2), (1, 3), (3, 1), (2, 3)]
 
 def cases(tier, seed):
     out = []
-    reps = 1 if tier == 'quick' else 60
+    reps = 1 if tier == 'quick' else 300
     for rep in range(reps):
         for i, row in enumerate(cat.covering({'fam': list(range(len(FAMS))), 'lat': list(range(len(LATS))), 'gate': ['local', 'local_odd', 'nn', 'nn_rev', 'path2', 'mpo3'], 'anc': [False, False, True],
                                               'dtype': ['real', 'complex']}, seed=seed * 3 + rep, strength=2)):
